@@ -553,6 +553,42 @@ fn direct_battery(rep: &mut Report) {
     }
     rep.events += log.len() as u64;
   }
+  // the handle of subscribe_on / delay_subscription whose subscribing task died half way: the
+  // first branch of a merge (a live subject) is wired when the second branch, user code in a
+  // `create`, panics. The scheduler keeps the payload inside the handle; the subject branch
+  // keeps delivering, so the handle may not claim to be closed.
+  for delayed in [false, true] {
+    rep.evaluations += 1;
+    rep.count("direct_subscription_cases", 1);
+    rep.set("subscription_types_covered", "TaskHandle<SubscribeReturn>");
+    let mut pool = futures::executor::LocalPool::new();
+    let log = Log::new();
+    let mut live = Subject::<'static, V, E>::default();
+    let dying = observable::create(|_s: Subscriber<_>| -> () { panic!("user code fails while the pipeline is being wired") });
+    let src = live.clone().merge(dying);
+    let probe = Probe::new(1, &log);
+    let handle = if delayed {
+      src.delay_subscription(Duration::from_millis(1), pool.spawner()).actual_subscribe(probe)
+    } else {
+      src.subscribe_on(pool.spawner()).actual_subscribe(probe)
+    };
+    // timers are virtual here: run what is runnable, let the clock pass the delay, run again
+    pool.run_until_stalled();
+    crate::vtime::advance_to(crate::vtime::now() + 5_000_000);
+    pool.run_until_stalled();
+    let reported_closed = handle.is_closed();
+    live.next(V::I(1));
+    live.next(V::I(2));
+    pool.run_until_stalled();
+    let got = log.notes(1).len();
+    if got == 2 {
+      rep.count("half_wired_handles_that_kept_delivering", 1);
+    }
+    if reported_closed && got > 0 {
+      fail(rep, "delivery_after_is_closed", "TaskHandle<SubscribeReturn>", format!("is_closed()==true after the subscribing task died, then {} item(s) were delivered through the half-wired pipeline (delay_subscription: {})", got, delayed));
+    }
+    rep.events += log.len() as u64 + 1;
+  }
 }
 
 /// `pre` children appended up front; thread 0 unsubscribes the composite,
